@@ -45,6 +45,7 @@ type Exec struct {
 	mapPkg string
 	vfsTemp int
 	marshalled []Value
+	syncMaps map[Ref]*syncMapModel // this path's versions of sync.Map tables that were made at init time
 	gshadow map[*ssa.Global]*Cell
 	eng          *Engine
 	h            *HarnessRun
@@ -636,6 +637,10 @@ func (x *Exec) call(fv *FuncVal, args []Value, site *ssa.CallCommon) Value {
 	return x.callFunction(fv.Fn, args, nil)
 }
 
+var linknameTwins = map[string][2]string{
+	"mime/multipart.readMIMEHeader": {"net/textproto", "readMIMEHeader"},
+}
+
 func (x *Exec) callFunction(fn *ssa.Function, args []Value, bind []Value) (ret Value) {
 	name := fn.String()
 	if fn.Origin() != nil {
@@ -678,6 +683,15 @@ func (x *Exec) callFunction(fn *ssa.Function, args []Value, bind []Value) (ret V
 		// math/big: the assembly kernels have pure Go twins (arith.go: addVV_g, shlVU_g, ...)
 		if fn.Pkg != nil && fn.Pkg.Pkg.Path() == "math/big" {
 			if g := fn.Pkg.Func(fn.Name() + "_g"); g != nil && g.Blocks != nil {
+				return x.callFunction(g, args, nil)
+			}
+		}
+		// go:linkname pairs of the standard library: the declaration without a body stands for a Go function elsewhere
+		if tgt, ok := linknameTwins[name]; ok {
+			if g := x.eng.findFunc(tgt[0], tgt[1]); g != nil && g.Blocks != nil {
+				if p := g.Pkg; p != nil {
+					p.Build()
+				}
 				return x.callFunction(g, args, nil)
 			}
 		}
